@@ -90,3 +90,23 @@ package polprog
 //@   property C13
 //@ layout ipsKeySize: ipsets.IPSetEntrySize == csizeof("struct ip_set_key") && ipsets.IPSetEntryV6Size == csizeof6("struct ip_set_key")
 //@   property C13
+
+//@ -- The generated program builds struct ip_set_key on its stack: every store goes to the C field's offset in the
+//@ -- build for the program's IP version (IPv4: coffsetof, IPv6: coffsetof6), relative to the key's base.
+//@ func (*Builder).setUpIPSetKey
+//@   property C13
+//@   option safety off
+//@   option stable (*Builder).forIPv6, *int16
+//@   requires p != nil && -512 <= keyOffset && keyOffset <= 0
+//@   -- the package-level offset variables hold their initial values (proved equal to the C offsets by the layout clauses above; never reassigned)
+//@   requires int(ipsKeyPrefix) == coffsetof("struct ip_set_key", "mask") && int(ipsKeyID) == coffsetof("struct ip_set_key", "set_id") && int(ipsKeyAddr) == coffsetof("struct ip_set_key", "addr")
+//@   requires int(ipsKeyPort) == coffsetof("struct ip_set_key", "port") && int(ipsKeyProto) == coffsetof("struct ip_set_key", "protocol") && int(ipsKeyPad) == coffsetof("struct ip_set_key", "pad")
+//@   ghost at call StoreStack8#1: check int(arg2) == int(keyOffset) + (p.forIPv6 ? coffsetof6("struct ip_set_key", "pad") : coffsetof("struct ip_set_key", "pad"))
+//@   ghost at call StoreStack8#2: check int(arg2) == int(keyOffset) + (p.forIPv6 ? coffsetof6("struct ip_set_key", "protocol") : coffsetof("struct ip_set_key", "protocol"))
+//@   ghost at call StoreStack16: check int(arg2) == int(keyOffset) + (p.forIPv6 ? coffsetof6("struct ip_set_key", "port") : coffsetof("struct ip_set_key", "port"))
+//@   ghost at call StoreStack32#1: check int(arg2) == int(keyOffset) + coffsetof("struct ip_set_key", "mask")
+//@   ghost at call StoreStack32#2: check !p.forIPv6 && int(arg2) == int(keyOffset) + coffsetof("struct ip_set_key", "addr")
+//@   ghost at call StoreStack32#3: check int(arg2) == int(keyOffset) + coffsetof("struct ip_set_key", "set_id")
+//@   ghost at call StoreStack32#4: check int(arg2) == int(keyOffset) + coffsetof("struct ip_set_key", "set_id") + 4
+//@   ghost at call StoreStack64#1: check p.forIPv6 && int(arg2) == int(keyOffset) + coffsetof6("struct ip_set_key", "addr")
+//@   ghost at call StoreStack64#2: check p.forIPv6 && int(arg2) == int(keyOffset) + coffsetof6("struct ip_set_key", "addr") + 8
